@@ -290,17 +290,23 @@ def data_attr(mode):
             "instantiate": "#[sv::data(instantiate)]", "instantiate_opt": "#[sv::data(instantiate, opt)]"}[mode]
 
 
-def gen_reply_table(rng, prog, n_names=None, force_modes=None):
+def gen_reply_table(rng, prog, n_names=None, force_modes=None, stage_merge=False):
     """Adds reply methods to the contract part of `prog` (valid table).  Returns the table:
     {"names": {name: {"cover": "s|e|se|a", "payload": sig}}, "methods": [...]}, sig = "raw" or [ti...]."""
     prog["replies"] = True
     cpart = prog["parts"][0]
     if n_names is None:
         n_names = rng.choice([1, 2, 2, 3, 4])
+    if stage_merge:
+        n_names = max(n_names, 3)
     names = rng.sample(REPLY_NAMES, n_names)
     table = {"names": {}, "methods": []}
-    for nm in names:
+    staged_sig = None
+    for idx, nm in enumerate(names):
         cover = rng.choice(["s", "e", "se", "se", "a"])
+        if stage_merge and idx < 2:
+            # names[0] is served by a success and an error method, names[1] by the same error method (listed after names[0])
+            cover = "se" if idx == 0 else "e"
         c = rng.random()
         if c < 0.3:
             sig = "raw"
@@ -316,6 +322,10 @@ def gen_reply_table(rng, prog, n_names=None, force_modes=None):
             if len(sig) >= 2 and rng.random() < 0.3:
                 # a 128-bit primitive among several payload values (a JSON number beyond the 64-bit range)
                 sig[rng.randrange(len(sig))] = intern_type(prog, rng.choice([T.U128, T.I128, T.vec(T.U128)]))
+        if stage_merge and idx == 0:
+            staged_sig = sig
+        if stage_merge and idx == 1:
+            sig = staged_sig
         table["names"][nm] = {"cover": cover, "payload": sig}
     # methods: group names with the same payload signature under shared methods sometimes
     method_names_taken = {h["name"] for h in cpart["handlers"]}
@@ -368,18 +378,22 @@ def gen_reply_table(rng, prog, n_names=None, force_modes=None):
         for outcome, letter in (("success", "s"), ("error", "e"), ("always", "a")):
             want = [n for n in nms if letter in table["names"][n]["cover"]]
             rng.shuffle(want)
+            if stage_merge and letter == "e" and names[0] in want and names[1] in want:
+                want = [names[0], names[1]] + [n for n in want if n not in names[:2]]
+                new_method(outcome, want[:2], sig)
+                want = want[2:]
             while want:
                 k = rng.choice([1, 1, 2, len(want)])
                 served, want = want[:k], want[k:]
                 new_method(outcome, served, sig)
     rng.shuffle(table["methods"])
-    _stage_merged_then_new(rng, table["methods"])
+    _stage_merged_then_new(rng, table["methods"], always=stage_merge)
     cpart["handlers"] += table["methods"]
     prog["reply_table"] = table
     return table
 
 
-def _stage_merged_then_new(rng, ms):
+def _stage_merged_then_new(rng, ms, always=False):
     """When possible, declares first a method that introduces name X, then a method whose `handlers=[X, Y, ..]` list names the
     already known X *before* the new name Y, and only later the methods of further names (id numbering must not skip or reuse)."""
     for m2 in ms:
@@ -391,7 +405,7 @@ def _stage_merged_then_new(rng, ms):
             common = [x for x in m2["handlers"] if x in m1["serves"]]
             fresh = [y for y in m2["handlers"] if y not in m1["serves"]]
             later = [m for m in ms if m is not m1 and m is not m2 and any(z not in m1["serves"] and z not in m2["serves"] for z in m["serves"])]
-            if common and fresh and later and rng.random() < 0.6:
+            if common and fresh and later and (always or rng.random() < 0.6):
                 m2["handlers"] = common + fresh
                 m2["serves"] = list(m2["handlers"])
                 m2.pop("handlers_split", None)
@@ -436,6 +450,8 @@ def gen_ep_config_program(rng, name, overrides, migrate, reply, replies_feature)
     if reply == "table":
         gen_reply_table(rng, p)
     elif reply == "legacy":
+        # an associated const in front of the methods: positions among the impl's *items* are not positions among its methods
+        p["impl_between"] = list(p.get("impl_between", [])) + [(0, "pub const REPLY_SLOT: u64 = 1;")]
         rn = rng.choice(["reply", "on_reply", "handle_reply"])
         p["parts"][0]["handlers"].append({"kind": "reply", "name": rn, "safe": True, "hid": f"c.reply.{rn}", "part": "c",
                                           "legacy": True, "args": [], "ret_err": "own"})
